@@ -349,6 +349,20 @@ pub fn cfgs(tier: &str) -> Vec<(DnsCfg, Bounds)> {
         1,
     );
     add(
+        "names that differ only in leading or trailing punctuation (a dot, two dots, a hyphen), one after the other",
+        vec![
+            ("printer".into(), [10, 4, 0, 1]),
+            ("printer.".into(), [10, 4, 0, 2]),
+            (".printer".into(), [10, 4, 0, 3]),
+            ("printer..".into(), [10, 4, 0, 4]),
+            ("printer-".into(), [10, 4, 0, 5]),
+        ],
+        vec![vec![1, 0, 3, 2, 4, 1], vec![0, 1]],
+        false,
+        false,
+        1,
+    );
+    add(
         "lookups in flight together: one client starts three lookups at once (ARP still unresolved), another two",
         vec![("a".into(), [1, 1, 1, 1]), ("bb".into(), [2, 2, 2, 2]), ("example.org".into(), [3, 3, 3, 3])],
         vec![vec![0, 1, 2], vec![2, 0]],
